@@ -16,10 +16,6 @@ NOT_APPLICABLE = {
     "C13": "End-to-end inclusion of every submitted transaction at all nodes is a multi-process liveness statement over TCP, timers and RocksDB; "
            "its mechanisms are decided individually under C08/C11/C12, nothing is claimed for C13 itself.",
 }
-NOT_APPLICABLE["C16"] = ("The store's command loop is the body of a closure handed to tokio::spawn; it can only be executed as a boxed task, whose state and "
-                         "command values live in heap objects that CBMC does not constant-propagate: the smallest schedule (one write, one read) did not "
-                         "finish symbolic execution in 400 s / 12 GB (harness kept in kani/harness/store_h.rs, shims/rocksdb). Copying the loop body into a "
-                         "harness would no longer be the real code, so no other encoding is offered.")
 NOT_APPLICABLE["C12"] = ("The quorum-waiting logic is the body of a select! branch inside QuorumWaiter::run, a compiler-generated coroutine that keeps its "
                          "locals across await points; Kani encodes such state machines so that CBMC loses the constant shapes of everything stored in them. Two "
                          "encodings of the real run loop were measured (one batch, three acknowledgement handles, symbolic stakes; kani/harness/quorum_waiter_h.rs, "
@@ -27,7 +23,7 @@ NOT_APPLICABLE["C12"] = ("The quorum-waiting logic is the body of a select! bran
                          "decides BatchMaker::run for C11) while the per-handler `waiter` futures stay boxed coroutines inside FuturesUnordered; neither finished "
                          "symbolic execution in 1000 s. Copying the branch body into a harness would no longer be the real code, so nothing is claimed.")
 NOT_APPLICABLE["C14"] = ("Connection::run / keep_alive are select!-based coroutines over TcpStream/Framed (same obstacle as C12, measured on the smaller "
-                         "QuorumWaiter and BatchMaker run loops: no result in 900 s); a scripted-I/O encoding of them was therefore not attempted beyond the design.")
+                         "QuorumWaiter run loop: no result in 900..1000 s, as a coroutine and lowered); a scripted-I/O encoding of them was therefore not attempted beyond the design.")
 PENDING = "check not built yet in this revision (solver-based harness planned, see DESIGN.md section 4); not claimed until it runs"
 
 
